@@ -10,7 +10,8 @@ from __future__ import annotations
 
 from ..core import Ctx
 from .. import sitecheck
-from ..sitecheck import kf_link_to_hidden, kf_hidden_root_listed     # noqa: F401  (known_findings "py")
+from ..sitecheck import (kf_link_to_hidden, kf_hidden_root_listed, kf_overrides_note_hidden,    # noqa: F401
+                         kf_main_module_ignores_rules)    # noqa: F401  (known_findings "py")
 
 
 def run(ctx: Ctx) -> int:
